@@ -16,7 +16,7 @@ ASSUMPTIONS = ['sequences are homogeneous lists/tuples (numpy coerces heterogene
                'for equal lengths the first argument is taken as the "longer" sequence, either reading accepted for the distance']
 N = {'quick': 6000, 'thorough': 400000}
 CLASSES = ['random_small', 'random_small', 'equal', 'substring', 'prefix_insertion', 'empty', 'large_alphabet', 'ints', 'tokens', 'summary_lists']
-REQUIRED = ['dist_checked', 'align_checked', 'path_checked', 'substr_dist_checked', 'substr_align_checked', 'summary_checked', 'aggregate_checked']
+REQUIRED = ['gap_marker_alignments', 'aggregate_iterables', 'dist_checked', 'align_checked', 'path_checked', 'substr_dist_checked', 'substr_align_checked', 'summary_checked', 'aggregate_checked']
 EXHAUSTIVE_KEY = 'exhaustive_pairs'
 EXHAUSTIVE_NOTE = 'all ordered pairs of sequences over {a,b} up to length 4 (quick) / 6 (thorough) and over {a,b,c} up to length 4 (thorough), unit costs and one non-unit cost triple'
 
@@ -35,7 +35,7 @@ def gen(rng, i, ctx):
     cls = CLASSES[i % len(CLASSES)]
     alpha = list('abc d'[:int(rng.integers(2, 5))] if cls != 'large_alphabet' else 'abcdefghijklmnopqrstuvwxyz0123')
     if cls == 'ints':
-        alpha = list(range(int(rng.integers(2, 5))))
+        alpha = [list(range(int(rng.integers(2, 5)))), [-2, -1, 0, 1], [-1, -2], [0, 2 ** 61 - 1, 1], [-3, -2, -1, 5]][int(rng.integers(0, 5))]   # signed and large ints too
     if cls == 'tokens':
         alpha = ['ab', 'a', 'b', 'ba'][:int(rng.integers(2, 5))]
     la, lb = int(rng.integers(0, 13)), int(rng.integers(0, 13))
@@ -127,6 +127,19 @@ def check_pair(a, b, costs, mon, ctx, light=False):
             # classify: is the optimum only reachable with an insertion before the first matched symbol?
             mech = None
         mon.violation('substring:distance', {'a': a, 'b': b, 'got': float(ds), 'expected': rs}, mechanism=mech)
+    # a caller-chosen gap marker (not an element of either sequence): the same alignments with the marker in place of None
+    marker = ['-', '', 0, ('gap',)][(len(a) + 2 * len(b)) % 4]
+    if marker not in list(a) and marker not in list(b):
+        mon.count('gap_marker_alignments')
+        try:
+            with_marker = [(sa.levenshtein_alignment(a, b, sc, ic, dc, empty_symbol=marker), sa.levenshtein_alignment(a, b, sc, ic, dc)),
+                           (sa.levenshtein_alignment_substring(a, b, empty_symbol=marker), sa.levenshtein_alignment_substring(a, b))]
+            for kind, (wm, plain) in zip(('alignment', 'substring alignment'), with_marker):
+                back = [(None if (x is marker or (type(x) is type(marker) and x == marker)) else x, None if (y is marker or (type(y) is type(marker) and y == marker)) else y) for x, y in wm]
+                if back != [tuple(p) for p in plain] or any(x is None or y is None for x, y in wm):
+                    mon.violation('alignment:gap-marker', {'what': kind, 'a': a, 'b': b, 'empty_symbol': marker, 'with_marker': wm, 'with_None': plain})
+        except Exception as e:
+            mon.violation('alignment:gap-marker', {'a': a, 'b': b, 'empty_symbol': marker, 'exception': repr(e)[:200]})
     try:
         als = sa.levenshtein_alignment_substring(a, b)
     except Exception as e:
@@ -188,6 +201,21 @@ def check_summary(pairs, mon, ctx):
     got = {(k, h): n for k, c in agg.confusions.items() for h, n in c.items() if n}
     if got != tot:
         mon.violation('aggregate:confusions', {'pairs': pairs})
+    # the partial summaries may arrive as any iterable (a generator over the lines of a file, a map object)
+    for name, it in (('generator', (x for x in sums)), ('iterator', iter(sums)), ('tuple', tuple(sums))):
+        try:
+            agg_it = es.ErrorsSummary.aggregate(it)
+        except Exception as e:
+            mon.violation('aggregate:sum', {'argument': name, 'exception': repr(e)[:200]})
+            continue
+        mon.count('aggregate_iterables')
+        for f in ('nb_lines_summarized', 'ref_len', 'nb_errors', 'nb_subs', 'nb_inss', 'nb_dels'):
+            if getattr(agg_it, f) != getattr(agg, f):
+                mon.violation('aggregate:sum', {'argument': name, 'field': f, 'got': int(getattr(agg_it, f)), 'from_a_list': int(getattr(agg, f))})
+                break
+        else:
+            if {(k, h): n for k, c in agg_it.confusions.items() for h, n in c.items() if n} != tot:
+                mon.violation('aggregate:confusions', {'argument': name})
     # aggregation must not alias / mutate its inputs
     agg2 = es.ErrorsSummary.aggregate(sums)
     if (agg2.nb_errors, agg2.nb_subs, agg2.ref_len) != (agg.nb_errors, agg.nb_subs, agg.ref_len):
